@@ -199,7 +199,10 @@ class Lane:
         g, rng = self.g, self.rng
         for _ in range(n):
             name = rng.choice(g.CONSENSUS)
-            val = getattr(g, name)(rng)
+            # lists of 64..127 elements matter: their length prefix is where the network's two-octet form and the
+            # textbook one-octet form differ
+            val = getattr(g, name)(rng, big=True) if name in ("transaction", "block") and rng.random() < 0.2 \
+                else getattr(g, name)(rng)
             b = val.serialize()
             self.offer(b, "valid")
             # structure-aware: alternative encodings of every length prefix / height
@@ -222,6 +225,8 @@ class Lane:
                         if alt.hit:
                             any_hit = True
                             if mb != b:
+                                if mode == "minimal" and not (name in ("block", "block_header", "block_summary") and occ == 0):
+                                    self.c["B_minimal_list_prefix"] = self.c.get("B_minimal_list_prefix", 0) + 1
                                 self.offer(mb, "vlq-" + mode)
                     if not any_hit or occ > 12:
                         break
@@ -330,7 +335,8 @@ def finalize(m, tier):
         "floors": [("A_values", c.get("A_values", 0), 10000), ("B_strings", c.get("B_strings", 0), 20000),
                    ("B_decoded", c.get("B_decoded", 0), 5000),
                    ("vlq alternatives offered", c.get("B_by_mutation", {}).get("vlq-pad1", 0), 500),
-                   ("vlq textbook-minimal alternatives offered", c.get("B_by_mutation", {}).get("vlq-minimal", 0), 20),
+                   ("vlq textbook-minimal alternatives offered", c.get("B_by_mutation", {}).get("vlq-minimal", 0), 300),
+                   ("textbook-minimal list prefixes offered", c.get("B_minimal_list_prefix", 0), 40),
                    ("ids checked", c.get("C_ids_checked", 0), 5000),
                    ("ids from store", c.get("C_ids_from_store", 0), 100)],
         "extra": {},
